@@ -18,6 +18,8 @@ func gcdInt(a, b int) int {
 	return a
 }
 
+var c17Prev prevTracker
+
 func l1Dist(a, b orb.Point) float64 { return math.Abs(a[0]-b[0]) + math.Abs(a[1]-b[1]) }
 
 func init() {
@@ -80,6 +82,7 @@ func init() {
 				return
 			}
 			e["out"] = q["c"]
+			e["pstable"] = c17Prev.check(out)
 			if N >= 2 && total > 0 {
 				e["nt"] = 1
 			}
